@@ -237,7 +237,7 @@ def accumulators(prog, rep):
             greads |= r | w
             for bb, t in x.calls():
                 c = t["callee"]
-                if c and c["resolved"] and c["path"] in prog.bodies and t["args"] and t["args"][0]["k"] in ("copy", "move"):
+                if c and c["resolved"] and prog.is_ws(c["path"]) and t["args"] and t["args"][0]["k"] in ("copy", "move"):
                     cb = prog.bodies[c["path"]]
                     if cb.d.get("impl_self") == self_ty and prov.operand_origin(x, t["args"][0])[0] == "arg":
                         work.append(cb)
